@@ -534,6 +534,26 @@ Proof.
   specialize (Hf _ [] H1). cbn [fst]. apply setn_ok; [done|]. apply node_ok_mutate. by apply getn_ok.
 Qed.
 
+Lemma peer_leave_split cl o d clk :
+  peer_leave cl o d clk = (peer_reap (peer_notice cl o d clk).1 o d clk, (peer_notice cl o d clk).2).
+Proof. reflexivity. Qed.
+Lemma peer_reap_ok cl o d clk : cl_ok cl → cl_ok (peer_reap cl o d clk).
+Proof. intros H. unfold peer_reap. apply setn_ok; [done|]. apply node_ok_mutate. by apply getn_ok. Qed.
+Lemma peer_notice_ok cl o d clk : cl_ok cl → cl_ok (peer_notice cl o d clk).1.
+Proof.
+  intros H. unfold peer_notice.
+  set (cl0 := Cluster (cl_nodes cl) (cl_conns cl) (cl_bad cl) (d :: cl_down cl) (cl_deliv cl) (cl_next cl)).
+  assert (H0 : cl_ok cl0) by (by apply (cl_ok_nodes cl)).
+  set (n1 := mutate (getn cl0 o) _).
+  assert (H1 : cl_ok (setn cl0 o n1)) by (apply setn_ok; [done|]; apply node_ok_mutate; by apply getn_ok).
+  match goal with |- context [fold_left ?f ?w (setn cl0 o n1, [])] => generalize w end. intros wills.
+  assert (Hf : ∀ (c : cluster) (ob : list eobs), cl_ok c →
+     cl_ok (fold_left (λ acc w, let '(c, ob, _) := append_at acc.1 o w in (c, (acc.2 ++ ob)%list)) wills (c, ob)).1).
+  { induction wills as [|w wills IH]; intros c ob Hc; cbn [fold_left]; [done|]. cbn [fst snd].
+    pose proof (append_at_ok c o w Hc) as Ha. destruct (append_at c o w) as [[c' ob'] ok]. cbn [fst] in Ha. by apply IH. }
+  exact (Hf _ [] H1).
+Qed.
+
 Theorem step_raw_ok seen cl o : cl_ok cl → cl_ok (step_raw seen cl o).1.
 Proof.
   intros H. destruct o; cbn [step_raw fst].
@@ -558,6 +578,8 @@ Proof.
   - by apply (cl_ok_nodes cl).
   - done.
   - by apply gossip_ok.
+  - by apply peer_notice_ok.
+  - by apply peer_reap_ok.
 Qed.
 Theorem step_ok seen cl o : cl_ok cl → cl_ok (step seen cl o).1.
 Proof. intros H. unfold step. cbn [fst]. apply drain_all_ok. by apply step_raw_ok. Qed.
